@@ -16,7 +16,7 @@ pub open spec fn dur_secs(d: Duration) -> int
 
 /// rank of a DateTime on the integer line; Earliest = -1, Latest above every Point
 pub open spec fn tp_secs(t: TimePoint) -> int { 86400 * (t.days as int) + (t.seconds as int) }
-pub open spec const LATEST_RANK: int = 0x4_0000_0000_0000_0000_0000;
+pub open spec const LATEST_RANK: int = 0x400_0000_0000_0000_0000_0000; // 2^90 > 86400 * 2^64 + 86400
 pub open spec fn dt_rank(t: DateTime) -> int {
     match t {
         DateTime::Earliest => -1,
@@ -24,7 +24,8 @@ pub open spec fn dt_rank(t: DateTime) -> int {
         DateTime::Latest => LATEST_RANK,
     }
 }
-pub open spec fn tp_ok(t: TimePoint) -> bool { t.seconds < 86400 && t.days < 0x1_0000_0000 }
+pub open spec fn tp_ok(t: TimePoint) -> bool { t.seconds < 86400 }
+pub open spec fn dt_small(t: DateTime) -> bool { t is Point ==> t->Point_0.days < 0x1_0000_0000 }
 pub open spec fn dt_ok(t: DateTime) -> bool { t is Point ==> tp_ok(t->Point_0) }
 pub open spec fn dt_le(a: DateTime, b: DateTime) -> bool { dt_rank(a) <= dt_rank(b) }
 pub open spec fn dt_lt(a: DateTime, b: DateTime) -> bool { dt_rank(a) < dt_rank(b) }
